@@ -357,6 +357,57 @@ func c10AttUnit(g gen.G) []byte {
 	return append([]byte{0x30, 0x31, 0x63, 0x64}, g.Bytes(g.Intn(80))...)
 }
 
+// c10AttHostileSession: a VALID announcement (0x1210 + 0x1211) followed by chunks for the announced file whose
+// offsets / lengths are adversarial relative to the announced size — beyond the size, overlapping, zero-length, offset+length
+// overflowing — including combinations whose lengths add up to exactly the announced size (so that completion logic runs),
+// then optionally 0x1212.
+func c10AttHostileSession(g gen.G) c10Conn {
+	d := gen.Dialects[g.Intn(5)]
+	if g.Chance(2, 3) {
+		d = consts.ActiveSafetyJS // the server under attack runs the default dialect
+	}
+	bcd := []byte{0, 0, 0, 0x55, g.U8() & 0x77, byte(g.Intn(10))}
+	size := uint32(1 + g.Intn(64))
+	if g.Chance(1, 6) {
+		size = core.Pick(g.Rand, []uint32{0, 1, 0xffffffff, 1 << 31})
+	}
+	name := []byte(g.Str(1 + g.Intn(12)))
+	f := att.File{Name: name, Size: size}
+	serial := g.U16()
+	var ws [][]byte
+	add := func(id uint16, body []byte) {
+		ws = append(ws, ref.Build(ref.Params{ID: id, BCD: bcd, Serial: serial, Body: body}))
+		serial++
+	}
+	add(0x1210, att.Body1210(d, []byte("T9"), []byte("hostile"), []att.File{f}))
+	if g.Bool() {
+		add(0x1211, att.Body1211(f, 0))
+	}
+	nchunks := 1 + g.Intn(4)
+	remaining := int(size % 4096)
+	for k := 0; k < nchunks; k++ {
+		ln := uint32(g.Intn(40))
+		if k == nchunks-1 && g.Chance(2, 3) && remaining >= 0 {
+			ln = uint32(remaining) // lengths add up to exactly the announced size
+		}
+		remaining -= int(ln)
+		off := core.Pick(g.Rand, []uint32{0, 1, size, size + 1, size * 2, 0x10000, 0x7fffffff, 0xffffffff, 0xffffffff - ln + 1, uint32(g.Intn(int(size%4096) + 1))})
+		data := g.Bytes(int(ln))
+		if g.Chance(1, 8) && ln > 0 {
+			data = data[:g.Intn(int(ln))] // fewer bytes than declared, then the next unit follows
+		}
+		ws = append(ws, append(att.ChunkHeader(d, name, off, ln), data...))
+	}
+	if g.Chance(2, 3) {
+		add(0x1212, att.Body1211(f, 0))
+	}
+	cn := c10Conn{Writes: ws, Close: core.Pick(g.Rand, []string{"fin", "rst", "linger"})}
+	if g.Chance(1, 3) {
+		cn.Writes = [][]byte{bytes.Join(ws, nil)}
+	}
+	return cn
+}
+
 func c10Send(addr string, cn c10Conn) bool {
 	c, err := net.DialTimeout("tcp", addr, 5*time.Second)
 	if err != nil {
@@ -591,6 +642,9 @@ func c10Att(c *core.Collector, x *Ctx, defaultHandler bool) {
 			pool := c10Bodies(ga)
 			for i := 0; i < n/4; i++ {
 				cn := c10Hostile(ga, pool, true)
+				if i%7 == 5 {
+					cn = c10AttHostileSession(ga)
+				}
 				if i%7 == 3 { // close mid-file: a well-formed session cut at a random point
 					p := attGenPlan(ga, 0, false)
 					b := attBuild(p)
